@@ -389,6 +389,49 @@ pub struct VerifyRes {
     pub resolver_calls: Vec<(String, Value)>,
 }
 
+/// the same calls ONE AFTER ANOTHER ON ONE THREAD (whatever the library keeps per thread or per process between calls is then
+/// in play); `pause_before[i]` seconds are slept before call i
+pub fn verify_sequence(calls: &[VerifyArgs], pause_before: &[u64]) -> Option<Vec<VerifyRes>> {
+    let calls = calls.to_vec();
+    let pauses = pause_before.to_vec();
+    let budget = 30 + calls.len() as u64 / 50 + pauses.iter().sum::<u64>();
+    let (tx, rx) = mpsc::channel();
+    thread::Builder::new()
+        .spawn(move || {
+            let mut out = vec![];
+            for (i, a) in calls.iter().enumerate() {
+                if let Some(p) = pauses.get(i) {
+                    if *p > 0 {
+                        thread::sleep(Duration::from_secs(*p));
+                    }
+                }
+                let log: Arc<Mutex<Vec<(String, Value)>>> = Arc::new(Mutex::new(vec![]));
+                let log2 = log.clone();
+                let resolver = a.resolver.clone();
+                let t0 = now();
+                let out1 = caught(|| {
+                    SDJWTVerifier::new(
+                        a.input.clone(),
+                        Box::new(move |iss: &str, header: &Header| -> DecodingKey {
+                            log2.lock().unwrap().push((iss.to_string(), serde_json::to_value(header).unwrap_or(Value::Null)));
+                            resolver.key_for(iss, header.kid.as_deref()).decoding()
+                        }),
+                        a.aud.clone(),
+                        a.nonce.clone(),
+                        a.fmt.real(),
+                    )
+                    .map(|v| v.verified_claims)
+                });
+                let t1 = now();
+                let calls_logged = log.lock().unwrap().clone();
+                out.push(VerifyRes { out: out1, t0, t1, resolver_calls: calls_logged });
+            }
+            let _ = tx.send(out);
+        })
+        .ok()?;
+    rx.recv_timeout(Duration::from_secs(budget)).ok()
+}
+
 pub fn verify(a: &VerifyArgs) -> VerifyRes {
     let a = a.clone();
     watchdog(move || {
